@@ -638,3 +638,498 @@ Lemma ex_ln_ok :
   let r := ln w FA sx FA ["z"%string] false false in
   fst r = Ok /\ resolve (snd r) FA ["z"%string] = resolve w FA sx /\ resolve w FA sx = Found FA 1%nat.
 Proof. vm_compute. repeat split; reflexivity. Qed.
+
+(* ------------------------------------------------------------------ recognition *)
+(** is_cooler never raises (after the D5 and D25 repairs) *)
+Theorem is_cooler_never_raises : forall w f p e, is_cooler w f p <> TRaise e.
+Proof.
+  intros w f p e. unfold is_cooler.
+  destruct (negb (file_exists w f)); [discriminate|].
+  destruct (contains w f p); try discriminate.
+  destruct (resolve w f p); try discriminate.
+  destruct (obj_at w f0 o); try discriminate.
+  destruct (is_cooler_obj o0); discriminate.
+Qed.
+
+(** it is true exactly when the file exists, the path is a member path, and it resolves to an object
+    tagged with the cooler format *)
+Theorem is_cooler_true_iff : forall w f p,
+  is_cooler w f p = TTrue <->
+  file_exists w f = true /\ contains w f p = TTrue /\
+  exists f1 o x, resolve w f p = Found f1 o /\ obj_at w f1 o = Some x /\ is_cooler_obj x = true.
+Proof.
+  intros w f p. unfold is_cooler. split.
+  - destruct (file_exists w f); simpl; [|discriminate].
+    destruct (contains w f p); try discriminate.
+    destruct (resolve w f p) as [f1 o| |]; try discriminate.
+    destruct (obj_at w f1 o) as [x|] eqn:E; try discriminate.
+    destruct (is_cooler_obj x) eqn:Ec; try discriminate.
+    intros _. repeat split; auto. exists f1, o, x. auto.
+  - intros (Hex & Hc & f1 & o & x & Hr & Ho & Hx). now rewrite Hex, Hc, Hr, Ho, Hx.
+Qed.
+
+(** false - not an error - for a path that is not a member path (D5) or does not resolve (D25) *)
+Theorem is_cooler_false_elsewhere : forall w f p,
+  (contains w f p <> TTrue \/ (forall f1 o, resolve w f p <> Found f1 o)) -> is_cooler w f p = TFalse.
+Proof.
+  intros w f p H. unfold is_cooler.
+  destruct (negb (file_exists w f)); auto.
+  destruct (contains w f p) eqn:Ec; auto.
+  destruct (resolve w f p) as [f1 o| |] eqn:Er; auto.
+  destruct H as [H|H]; [congruence|]. exfalso. eapply H; eauto.
+Qed.
+
+(* ------------------------------------------------------------------ write mode *)
+Lemma set_store_twice : forall w f a b, set_store (set_store w f a) f b = set_store w f b.
+Proof. destruct f; reflexivity. Qed.
+
+(** mode "w" replaces the file: the result does not depend on what the file held (or whether it existed) *)
+Theorem create_w_replaces : forall w f p spec,
+  create w f p true spec = create (set_store w f None) f p true spec.
+Proof. intros. unfold create. simpl orb. cbv iota. now rewrite set_store_twice. Qed.
+
+
+(* ------------------------------------------------------------------ a copy reads as its source *)
+Definition shift_entry (k : nat) (pe : path * dentry) : path * dentry :=
+  (fst pe, match snd pe with
+           | DG o a => DG (o + k) a
+           | DD o x => DD (o + k) x
+           | e => e
+           end).
+
+Lemma flat_map_map_ext : forall X Y Z (F : X -> list Y) (F' : X -> list Z) (G : X -> X) (Sf : Y -> Z) ls,
+  (forall x, In x ls -> F' (G x) = map Sf (F x)) -> flat_map F' (map G ls) = map Sf (flat_map F ls).
+Proof.
+  induction ls as [|x r IH]; simpl; intros H; auto.
+  rewrite map_app, H by auto. f_equal. apply IH. intros; apply H; auto.
+Qed.
+
+(** [blk] = the copied block: object o of the source store sits, shifted, at o + k of the destination store *)
+Definition copied_block (w w' : world) (sf df : fid) (k : nat) : Prop :=
+  exists st_s st', get_store w sf = Some st_s /\ get_store w' df = Some st' /\
+    forall o, nth_error st' (o + k) = option_map (shift_obj k) (nth_error st_s o).
+
+Lemma dump_shift : forall d w w' sf df k, copied_block w w' sf df k ->
+  forall o pre, dump d w' df (o + k) pre = map (shift_entry k) (dump d w sf o pre).
+Proof.
+  induction d; intros w w' sf df k Hb o pre; simpl; auto.
+  destruct Hb as (st_s & st' & Es & Es' & Hn).
+  assert (forall o, obj_at w' df (o + k) = option_map (shift_obj k) (obj_at w sf o)) as Ho.
+  { intro o0. unfold obj_at. rewrite Es, Es'. apply Hn. }
+  rewrite Ho. destruct (obj_at w sf o) as [[a ls|x]|]; simpl; auto.
+  apply flat_map_map_ext. intros [n l] _. simpl. destruct l as [o'| |]; simpl; auto.
+  rewrite Ho. destruct (obj_at w sf o') as [[a' ls'|x']|]; simpl; auto.
+  unfold shift_entry at 1. simpl. f_equal.
+  apply IHd. exists st_s, st'. auto.
+Qed.
+
+Lemma h5copy_ok : forall w sf so df dg dp w', h5copy w sf so df dg dp = (Ok, w') ->
+  exists k par n g,
+    copied_block w w' sf df k /\ dp = par ++ [n] /\
+    resolves_from w' df dg par df g /\ lookup_link w' df g n = Some (Hard (so + k)).
+Proof.
+  unfold h5copy; intros w sf so df dg dp w' H.
+  destruct (split_last dp) as [[par n]|] eqn:Hs; try discriminate.
+  destruct (get_store w sf) as [src0|] eqn:Esrc; try discriminate.
+  destruct (ensure w df dg par) as [[[[w1 [xs xe]] f1] g]|] eqn:E; try discriminate.
+  destruct (xs || negb (fid_eqb f1 df)) eqn:Ex; try discriminate.
+  apply orb_false_iff in Ex. destruct Ex as [_ Ef]. apply negb_false_iff in Ef. apply fid_eqb_eq in Ef. subst f1.
+  destruct (get_store w1 df) as [st1|] eqn:Es1; try discriminate.
+  destruct (nth_error st1 g) as [[a ls|]|] eqn:Eg; try discriminate.
+  destruct (assoc n ls) eqn:En; try discriminate.
+  injection H as <-.
+  set (k := List.length st1).
+  assert (g < k)%nat as Lg by (apply nth_error_Some; congruence).
+  exists k, par, n, g. split; [|split; [|split]].
+  - exists src0, (upd g (Group a (ins_sorted n (Hard (so + k)) ls)) st1 ++ map (shift_obj k) src0).
+    split; auto. split; [apply get_set_same|].
+    intro o. rewrite nth_error_app2 by (rewrite length_upd; fold k; lia).
+    rewrite length_upd. fold k. replace (o + k - k)%nat with o by lia. apply nth_error_map.
+  - now apply split_last_app.
+  - eapply resolves_mono; [|unfold ensure in E; eapply ensure_gen_resolves; eauto].
+    eapply world_le_set; eauto.
+    eapply store_le_trans; [|apply store_le_app].
+    eapply store_le_upd; eauto. simpl; split; auto. now apply links_le_ins.
+  - unfold lookup_link, obj_at. rewrite get_set_same.
+    rewrite nth_error_app1 by (rewrite length_upd; fold k; lia).
+    rewrite nth_error_upd_same by (fold k; lia). apply assoc_ins_same.
+Qed.
+
+(** fileops.cp onto a non-root destination of an existing file: the destination resolves to a NEW object
+    (id shifted by k) that dumps - structure, attributes, payloads, link values, sharing pattern - exactly as
+    the source object did, and nothing else changed (copy_frame) *)
+Theorem cp_spec : forall w sf sp df dp w',
+  file_exists w df = true -> (sf = df \/ dp <> []) ->
+  _copy w sf sp df dp false false false false = (Ok, w') ->
+  exists fs o k,
+    resolve w sf sp = Found fs o /\ resolves w' df dp df (o + k) /\
+    (forall d pre, dump d w' df (o + k) pre = map (shift_entry k) (dump d w fs o pre)) /\
+    world_le w w'.
+Proof.
+  intros w sf sp df dp w' Hex Hdom H.
+  assert (world_le w w') as L by (eapply copy_frame; eauto; tauto).
+  unfold _copy in H. change (Nat.ltb 1 (0 + 0 + 0)) with false in H. cbv iota in H.
+  destruct (negb (file_exists w sf)); try discriminate.
+  rewrite Hex in H. simpl negb in H. simpl orb in H. rewrite andb_false_r in H. cbv iota in H.
+  assert (forall fs o, h5copy w fs o df 0 dp = (Ok, w') -> resolve w sf sp = Found fs o ->
+          exists fs0 o0 k, Found fs o = Found fs0 o0 /\ resolves w' df dp df (o0 + k) /\
+            (forall d pre, dump d w' df (o0 + k) pre = map (shift_entry k) (dump d w fs0 o0 pre)) /\ world_le w w') as K.
+  { intros fs o Hc Hr. destruct (h5copy_ok _ _ _ _ _ _ _ Hc) as (k & par & n & g & Hb & -> & Hpar & Hl).
+    exists fs, o, k. split; auto. split; [|split; auto].
+    - eapply resolves_app; eauto. eapply resolves_step; eauto; [reflexivity|apply resolves_nil].
+    - intros. now apply dump_shift. }
+  destruct (fid_eqb sf df) eqn:Esame.
+  - simpl in H. destruct (resolve w sf sp) as [fs o| |] eqn:Er; try discriminate.
+    apply fid_eqb_eq in Esame. subst df. eapply K; eauto.
+  - simpl in H. destruct dp as [|d0 dr].
+    + destruct Hdom as [->|N]; [|congruence]. rewrite (proj2 (fid_eqb_eq df df) eq_refl) in Esame. discriminate.
+    + destruct (resolve w sf sp) as [fs o| |] eqn:Er; try discriminate. eapply K; eauto.
+Qed.
+
+(* ------------------------------------------------------------------ the listing traversal *)
+(** one traversal step of TreeNode.get_children: a member (k, l) of group (f, o) that opens to (f1, o1),
+    named the way h5py names it *)
+Definition vstep (w : world) (f : fid) (o : nat) (name nm : path) (f1 : fid) (o1 : nat) : Prop :=
+  exists a ls k l, obj_at w f o = Some (Group a ls) /\ In (k, l) ls /\
+                   nm = child_name name k l /\ follow w f l = Found f1 o1.
+Inductive reach (w : world) : fid -> nat -> path -> path -> fid -> nat -> Prop :=
+  | reach_one : forall f o name nm f1 o1, vstep w f o name nm f1 o1 -> reach w f o name nm f1 o1
+  | reach_more : forall f o name nm f1 o1 p f2 o2,
+      vstep w f o name nm f1 o1 -> reach w f1 o1 nm p f2 o2 -> reach w f o name p f2 o2.
+
+Fixpoint go (vis : fid -> nat -> path -> visit_result) (cs : list (path * res)) : visit_result :=
+  match cs with
+  | [] => (Ok, [])
+  | (nm, Found f1 o1) :: r =>
+      match vis f1 o1 nm with
+      | (Ok, sub) => match go vis r with
+                     | (Ok, t) => (Ok, (nm, f1, o1) :: sub ++ t)
+                     | e => e
+                     end
+      | e => e
+      end
+  | (_, _) :: _ => (EAttr, [])
+  end.
+
+Lemma visit_unfold : forall k w f o name,
+  visit (S k) w f o name =
+  match obj_at w f o with
+  | Some (Group _ ls) =>
+      match open_children w f name ls with
+      | None => (ERuntime, [])
+      | Some cs => go (visit k w) cs
+      end
+  | _ => (Ok, [])
+  end.
+Proof.
+  intros. unfold visit at 1. simpl. destruct (obj_at w f o) as [[a ls|]|]; auto.
+  destruct (open_children w f name ls) as [cs|]; auto.
+  induction cs as [|[nm r] cs IH]; simpl; auto.
+  destruct r; auto. fold (visit k w f0 o0 nm). destruct (visit k w f0 o0 nm) as [[] sub]; auto.
+  rewrite IH. reflexivity.
+Qed.
+
+Lemma open_children_spec : forall ls w f name cs, open_children w f name ls = Some cs ->
+  cs = map (fun kl => (child_name name (fst kl) (snd kl), follow w f (snd kl))) ls.
+Proof.
+  unfold open_children. induction ls as [|[k l] r IH]; simpl; intros w f name cs H.
+  - now injection H as <-.
+  - destruct (follow w f l) eqn:Ef; try discriminate;
+      destruct (open_children_gen follow w f name r) as [t|] eqn:Et; try discriminate;
+      injection H as <-; simpl; f_equal; eauto.
+Qed.
+
+Lemma go_spec : forall vis cs L, go vis cs = (Ok, L) ->
+  (forall nm r, In (nm, r) cs -> exists f1 o1 sub, r = Found f1 o1 /\ vis f1 o1 nm = (Ok, sub)) /\
+  (forall x, In x L <-> exists nm f1 o1 sub, In (nm, Found f1 o1) cs /\ vis f1 o1 nm = (Ok, sub) /\
+                                              (x = (nm, f1, o1) \/ In x sub)).
+Proof.
+  induction cs as [|[nm r] cs IH]; simpl; intros L H.
+  - injection H as <-. split; [intros ? ? []|]. intro x; split; [intros []|intros (?&?&?&?&[]&_)].
+  - destruct r as [f1 o1| |]; try discriminate.
+    destruct (vis f1 o1 nm) as [e sub] eqn:Ev. destruct e; try discriminate.
+    destruct (go vis cs) as [e t] eqn:Eg. destruct e; try discriminate.
+    injection H as <-. destruct (IH _ eq_refl) as (A & B). split.
+    + intros nm' r' [E|Hin]; [injection E as <- <-; eauto|eauto].
+    + intro x. split.
+      * intros [<-|Hin].
+        -- exists nm, f1, o1, sub. auto.
+        -- apply in_app_or in Hin. destruct Hin as [Hin|Hin].
+           ++ exists nm, f1, o1, sub. auto.
+           ++ apply B in Hin. destruct Hin as (nm' & f' & o' & sub' & I & V & D).
+              exists nm', f', o', sub'. auto.
+      * intros (nm' & f' & o' & sub' & [E|I] & V & D).
+        -- injection E as <- <- <-. rewrite Ev in V. injection V as <-.
+           destruct D as [->|D]; [left; auto|right; apply in_or_app; auto].
+        -- right. apply in_or_app. right. apply B. exists nm', f', o', sub'. auto.
+Qed.
+
+(** partial correctness of the traversal: IF it returns without an error, the visited nodes are exactly
+    the objects reachable through members, each under the name h5py reports *)
+Theorem visit_exact : forall k w f o name nodes, visit k w f o name = (Ok, nodes) ->
+  forall p f2 o2, In (p, f2, o2) nodes <-> reach w f o name p f2 o2.
+Proof.
+  induction k; intros w f o name nodes H; [discriminate|].
+  rewrite visit_unfold in H.
+  destruct (obj_at w f o) as [[a ls|d]|] eqn:Eo.
+  - destruct (open_children w f name ls) as [cs|] eqn:Eoc; try discriminate.
+    pose proof (open_children_spec _ _ _ _ _ Eoc) as Hcs.
+    destruct (go_spec _ _ _ H) as (A & B).
+    assert (forall nm f1 o1, In (nm, Found f1 o1) cs <-> vstep w f o name nm f1 o1) as Hstep.
+    { intros nm f1 o1. rewrite Hcs. rewrite in_map_iff. split.
+      - intros ([k0 l] & E & Hin). simpl in E. injection E as <- Ef.
+        exists a, ls, k0, l. auto.
+      - intros (a' & ls' & k0 & l & Eo' & Hin & -> & Ef). rewrite Eo in Eo'. injection Eo' as <- <-.
+        exists (k0, l). simpl. rewrite Ef. auto. }
+    intros p f2 o2. rewrite B. split.
+    + intros (nm & f1 & o1 & sub & I & V & D). apply Hstep in I.
+      destruct D as [E|D]; [injection E as -> -> ->; now apply reach_one|].
+      eapply reach_more; eauto. eapply IHk; eauto.
+    + intros R. inversion R as [? ? ? nm f1 o1 S|? ? ? nm f1 o1 ? ? ? S R']; subst.
+      * pose proof S as S0. apply Hstep in S. destruct (A _ _ S) as (f1' & o1' & sub & E & V).
+        injection E as <- <-. exists p, f2, o2, sub. auto.
+      * pose proof S as S0. apply Hstep in S. destruct (A _ _ S) as (f1' & o1' & sub & E & V).
+        injection E as <- <-. exists nm, f1, o1, sub. split; auto. split; auto. right. eapply IHk; eauto.
+  - injection H as <-. intros p f2 o2. split; [intros []|].
+    intros R. inversion R as [? ? ? nm f1 o1 (a & ls & k0 & l & E & _)|? ? ? nm f1 o1 ? ? ? (a & ls & k0 & l & E & _) _]; congruence.
+  - injection H as <-. intros p f2 o2. split; [intros []|].
+    intros R. inversion R as [? ? ? nm f1 o1 (a & ls & k0 & l & E & _)|? ? ? nm f1 o1 ? ? ? (a & ls & k0 & l & E & _) _]; congruence.
+Qed.
+
+(** list_coolers: whenever it returns a listing at all, the listing is exact with respect to reachability *)
+Theorem listing_exact_reach : forall w f L, list_coolers w f = (Ok, L) ->
+  forall p, In p L <->
+    (p = [] /\ is_cooler_at w f 0 = true) \/
+    (exists f2 o2, reach w f 0 [] p f2 o2 /\ is_cooler_at w f2 o2 = true).
+Proof.
+  intros w f L H p. unfold list_coolers in H.
+  destruct (negb (file_exists w f)); try discriminate.
+  destruct (visit VISIT_FUEL w f 0 []) as [e nodes] eqn:Ev. destruct e; try discriminate.
+  injection H as <-. pose proof (visit_exact _ _ _ _ _ _ Ev) as Hv.
+  rewrite in_app_iff, in_map_iff. split.
+  - intros [Hroot|((q, o2) & E & Hin)].
+    + left. destruct (is_cooler_at w f 0); [|destruct Hroot]. destruct Hroot as [<-|[]]. auto.
+    + right. destruct q as [p' f2]. simpl in E. subst p'. apply filter_In in Hin. destruct Hin as [Hin Hc].
+      simpl in Hc. exists f2, o2. split; auto. now apply Hv.
+  - intros [[-> Hc]|(f2 & o2 & R & Hc)].
+    + left. rewrite Hc. simpl. auto.
+    + right. exists (p, f2, o2). split; auto. apply filter_In. split; auto. now apply Hv.
+Qed.
+
+(* ------------------------------------------------------------------ reachability = path resolution (no external links) *)
+Definition no_ext (w : world) (f : fid) : Prop :=
+  forall o a ls k l, obj_at w f o = Some (Group a ls) -> In (k, l) ls -> is_ext l = false.
+Definition nodup_keys (w : world) (f : fid) : Prop :=
+  forall o a ls, obj_at w f o = Some (Group a ls) -> NoDup (map fst ls).
+
+Lemma assoc_in : forall X n (x : X) l, assoc n l = Some x -> In (n, x) l.
+Proof.
+  induction l as [|[m y] r IH]; simpl; intros H; try discriminate.
+  destruct (S.eqb n m) eqn:E; [apply S.eqb_eq in E; subst; injection H as <-; auto|auto].
+Qed.
+
+Lemma in_assoc_nodup : forall X n (x : X) l, NoDup (map fst l) -> In (n, x) l -> assoc n l = Some x.
+Proof.
+  induction l as [|[m y] r IH]; simpl; intros Hnd Hin; [tauto|].
+  inversion Hnd as [|? ? Hnot Hnd']; subst.
+  destruct Hin as [E|Hin].
+  - injection E as -> ->. now rewrite eqb_refl'.
+  - destruct (S.eqb n m) eqn:E; [|auto]. apply S.eqb_eq in E. subst m.
+    exfalso. apply Hnot. apply in_map_iff. exists (n, x). auto.
+Qed.
+
+Lemma walk_same_file : forall k w x f o p f1 o1, no_ext w f ->
+  walk k w x f o p = Found f1 o1 -> f1 = f.
+Proof.
+  induction k; simpl; intros w x f o p f1 o1 Hne H; try discriminate.
+  destruct p as [|n rest]; [now injection H as <- <-|].
+  destruct (obj_at w f o) as [[a ls|d]|] eqn:E; try discriminate.
+  destruct (assoc n ls) as [l|] eqn:El; try discriminate.
+  pose proof (Hne _ _ _ _ _ E (assoc_in _ _ _ _ El)) as Hx.
+  destruct l; simpl in Hx; try discriminate; eauto.
+Qed.
+
+Lemma follow_same_file : forall w f l f1 o1, no_ext w f -> is_ext l = false ->
+  follow w f l = Found f1 o1 -> f1 = f.
+Proof.
+  intros w f l f1 o1 Hne Hx. unfold follow. generalize FUEL; intro K.
+  destruct l; simpl in Hx; try discriminate; intro H.
+  - now injection H as <- _.
+  - eapply walk_same_file; eauto.
+Qed.
+
+(** soundness: every listed path is a path of link names that resolves, inside the file, to the listed object *)
+Lemma vstep_resolves : forall w f o name nm f1 o1, no_ext w f -> nodup_keys w f ->
+  vstep w f o name nm f1 o1 -> f1 = f /\ exists k, nm = name ++ [k] /\ resolves_from w f o [k] f o1.
+Proof.
+  intros w f o name nm f1 o1 Hne Hnd (a & ls & k & l & E & Hin & -> & Hf).
+  pose proof (Hne _ _ _ _ _ E Hin) as Hx.
+  assert (f1 = f) as -> by (eapply follow_same_file; eauto).
+  split; auto. exists k. split.
+  - destruct l; simpl in Hx; try discriminate; reflexivity.
+  - eapply resolves_step; eauto; [|apply resolves_nil].
+    unfold lookup_link. rewrite E. apply in_assoc_nodup; eauto.
+Qed.
+
+Lemma reach_resolves_gen : forall w f0 o name p f2 o2, reach w f0 o name p f2 o2 ->
+  no_ext w f0 -> nodup_keys w f0 ->
+  f2 = f0 /\ exists q, q <> [] /\ p = name ++ q /\ resolves_from w f0 o q f0 o2.
+Proof.
+  intros w f0 o name p f2 o2 R.
+  induction R as [f o name nm f1 o1 S|f o name nm f1 o1 p f2 o2 S R IH]; intros Hne Hnd.
+  - destruct (vstep_resolves _ _ _ _ _ _ _ Hne Hnd S) as (-> & k & -> & Hr).
+    split; auto. exists [k]. split; [discriminate|auto].
+  - destruct (vstep_resolves _ _ _ _ _ _ _ Hne Hnd S) as (-> & k & -> & Hr).
+    destruct (IH Hne Hnd) as (-> & q & Hq & -> & Hr2). split; auto.
+    exists (k :: q). split; [discriminate|]. split; [now rewrite <- app_assoc|].
+    change (k :: q) with ([k] ++ q). eapply resolves_app; eauto.
+Qed.
+
+Lemma reach_resolves : forall w f, no_ext w f -> nodup_keys w f ->
+  forall o name p f2 o2, reach w f o name p f2 o2 ->
+  f2 = f /\ exists q, q <> [] /\ p = name ++ q /\ resolves_from w f o q f o2.
+Proof. intros. eapply reach_resolves_gen; eauto. Qed.
+
+Lemma walk_S : forall k w x f o p f1 o1, walk k w x f o p = Found f1 o1 -> walk (S k) w x f o p = Found f1 o1.
+Proof. intros. replace (S k) with (k + 1)%nat by lia. now apply walk_found_fuel. Qed.
+
+Lemma walk_app_inv : forall k w x f o p r f2 o2, walk k w x f o (p ++ r) = Found f2 o2 ->
+  exists f1 o1 x', walk k w x f o p = Found f1 o1 /\ walk k w x' f1 o1 r = Found f2 o2.
+Proof.
+  induction k; intros w x f o p r f2 o2 H; [simpl in H; discriminate|].
+  destruct p as [|n rest].
+  - simpl app in H. exists f, o, x. split; auto.
+  - simpl in H.
+    destruct (obj_at w f o) as [[a ls|d]|] eqn:Eo; try discriminate.
+    destruct (assoc n ls) as [l|] eqn:El; try discriminate.
+    destruct l as [o'|q|f' q].
+    + destruct (IHk _ _ _ _ _ _ _ _ H) as (f1 & o1 & x' & H1 & H2).
+      exists f1, o1, x'. split; [simpl; now rewrite Eo, El|now apply walk_S].
+    + rewrite app_assoc in H. destruct (IHk _ _ _ _ _ _ _ _ H) as (f1 & o1 & x' & H1 & H2).
+      exists f1, o1, x'. split; [simpl; now rewrite Eo, El|now apply walk_S].
+    + destruct (file_exists w f') eqn:Ex; try discriminate.
+      rewrite app_assoc in H. destruct (IHk _ _ _ _ _ _ _ _ H) as (f1 & o1 & x' & H1 & H2).
+      exists f1, o1, x'. split; [simpl; now rewrite Eo, El, Ex|now apply walk_S].
+Qed.
+
+Lemma walk_found_det : forall k1 k2 w x1 x2 f o p r1 r2,
+  walk k1 w x1 f o p = r1 -> walk k2 w x2 f o p = r2 ->
+  (exists a b, r1 = Found a b) -> (exists a b, r2 = Found a b) -> r1 = r2.
+Proof.
+  intros k1 k2 w x1 x2 f o p r1 r2 H1 H2 (a1 & b1 & ->) (a2 & b2 & ->).
+  pose proof (walk_found_fuel _ k2 _ _ _ _ _ _ _ H1) as A.
+  pose proof (walk_found_fuel _ k1 _ _ _ _ _ _ _ H2) as B.
+  apply walk_found_flag with (x' := false) in A. apply walk_found_flag with (x' := false) in B.
+  rewrite (Nat.add_comm k2 k1) in B. congruence.
+Qed.
+
+(** completeness: if the traversal finished, every path of link names that resolves was visited *)
+Lemma resolves_reach : forall w f, no_ext w f ->
+  forall q k o name nodes f2 o2, visit k w f o name = (Ok, nodes) -> q <> [] ->
+  resolves_from w f o q f2 o2 -> reach w f o name (name ++ q) f2 o2.
+Proof.
+  intros w f Hne. induction q as [|n rest IH]; intros k o name nodes f2 o2 Hv Hq [j Hw]; [congruence|].
+  destruct k; [discriminate|]. rewrite visit_unfold in Hv.
+  destruct j; [discriminate|]. simpl in Hw.
+  destruct (obj_at w f o) as [[a ls|d]|] eqn:Eo; try discriminate.
+  destruct (assoc n ls) as [l|] eqn:El; try discriminate.
+  destruct (open_children w f name ls) as [cs|] eqn:Eoc; try discriminate.
+  pose proof (open_children_spec _ _ _ _ _ Eoc) as Hcs.
+  destruct (go_spec _ _ _ Hv) as (A & _).
+  pose proof (assoc_in _ _ _ _ El) as Hin.
+  pose proof (Hne _ _ _ _ _ Eo Hin) as Hx.
+  assert (In (child_name name n l, follow w f l) cs) as Hentry.
+  { rewrite Hcs. apply in_map_iff. exists (n, l). auto. }
+  destruct (A _ _ Hentry) as (f1 & o1 & sub & Ef & Hsub).
+  assert (f1 = f) as -> by (eapply follow_same_file; eauto).
+  assert (child_name name n l = name ++ [n]) as Hnm by (destruct l; simpl in Hx; try discriminate; reflexivity).
+  assert (vstep w f o name (name ++ [n]) f o1) as S1.
+  { exists a, ls, n, l. rewrite Hnm. auto. }
+  (* the rest of the path resolves from the opened child *)
+  assert (exists j', walk j' w false f o1 rest = Found f2 o2) as [j' Hrest].
+  { destruct l as [o'|sq|f' sq]; simpl in Hx; try discriminate.
+    - simpl in Ef. injection Ef as <-. exists j. eapply walk_found_flag; eauto.
+    - destruct (walk_app_inv _ _ _ _ _ _ _ _ _ Hw) as (fa & oa & x' & H1 & H2).
+      unfold follow in Ef.
+      assert (Found fa oa = Found f o1) as E.
+      { eapply walk_found_det; [exact H1|exact Ef|eauto|eauto]. }
+      injection E as -> ->. exists j. eapply walk_found_flag; eauto. }
+  destruct rest as [|n2 rest2].
+  - destruct j'; [discriminate|]. simpl in Hrest. injection Hrest as <- <-. now apply reach_one.
+  - rewrite Hnm in Hsub.
+    replace (name ++ n :: n2 :: rest2) with ((name ++ [n]) ++ n2 :: rest2) by (now rewrite <- app_assoc).
+    eapply reach_more; eauto. eapply IH; eauto; [discriminate|exists j'; eauto].
+Qed.
+
+(** listing_exact: on a file without external links (and with unique member names), whenever list_coolers
+    returns at all - i.e. no link cycle exhausted the traversal and no member dangles - it lists exactly the
+    member paths that resolve to an object tagged as a cooler, plus "/" when the root is one *)
+Theorem listing_exact : forall w f L, no_ext w f -> nodup_keys w f -> list_coolers w f = (Ok, L) ->
+  forall p, In p L <-> exists o2, resolves w f p f o2 /\ is_cooler_at w f o2 = true.
+Proof.
+  intros w f L Hne Hnd H p. rewrite (listing_exact_reach _ _ _ H). split.
+  - intros [[-> Hc]|(f2 & o2 & R & Hc)].
+    + exists 0%nat. split; auto. apply resolves_nil.
+    + destruct (reach_resolves _ _ Hne Hnd _ _ _ _ _ R) as (-> & q & Hq & -> & Hr). exists o2. auto.
+  - intros (o2 & Hr & Hc). destruct p as [|n rest].
+    + left. split; auto. destruct Hr as [j Hj]. destruct j; [discriminate|]. simpl in Hj. now injection Hj as <-.
+    + right. exists f, o2. split; auto.
+      unfold list_coolers in H. destruct (negb (file_exists w f)); try discriminate.
+      destruct (visit VISIT_FUEL w f 0 []) as [e nodes] eqn:Ev. destruct e; try discriminate.
+      change (n :: rest) with ([] ++ n :: rest). eapply resolves_reach; eauto. discriminate.
+Qed.
+
+(* ------------------------------------------------------------------ URIs with and without the leading slash *)
+(** f::g and f::/g denote the same group path (parse_cooler_uri prepends the slash; HDF5 path syntax) *)
+Theorem uri_slash : forall g, path_of_string (uri_group g) = path_of_string g.
+Proof.
+  intros g. unfold uri_group, path_of_string. destruct g as [|c r]; [reflexivity|].
+  destruct (Coq.Strings.Ascii.eqb c SLASH) eqn:E; [reflexivity|].
+  simpl. reflexivity.
+Qed.
+
+Lemma leading_slash_ignored : forall s, path_of_string (Coq.Strings.String.String SLASH s) = path_of_string s.
+Proof. intros. reflexivity. Qed.
+
+(* ------------------------------------------------------------------ executable well-formedness *)
+Definition obj_no_ext_b (x : obj) : bool :=
+  match x with Group _ ls => forallb (fun kl => negb (is_ext (snd kl))) ls | Dataset _ => true end.
+Fixpoint nodup_str_b (l : list string) : bool :=
+  match l with [] => true | x :: r => negb (existsb (S.eqb x) r) && nodup_str_b r end.
+Definition obj_nodup_b (x : obj) : bool :=
+  match x with Group _ ls => nodup_str_b (map fst ls) | Dataset _ => true end.
+Definition file_wf_b (w : world) (f : fid) : bool :=
+  match get_store w f with
+  | Some st => forallb obj_no_ext_b st && forallb obj_nodup_b st
+  | None => true
+  end.
+
+Lemma nodup_str_b_sound : forall l, nodup_str_b l = true -> NoDup l.
+Proof.
+  induction l as [|x r IH]; simpl; intros H; [constructor|].
+  apply andb_true_iff in H. destruct H as [H1 H2]. constructor; auto.
+  intro Hin. apply negb_true_iff in H1.
+  assert (existsb (S.eqb x) r = true) as K; [|congruence].
+  apply existsb_exists. exists x. split; auto. apply eqb_refl'.
+Qed.
+
+Lemma file_wf_b_sound : forall w f, file_wf_b w f = true -> no_ext w f /\ nodup_keys w f.
+Proof.
+  intros w f H. unfold file_wf_b in H. split.
+  - intros o a ls k l E Hin. unfold obj_at in E. destruct (get_store w f) as [st|]; try discriminate.
+    apply andb_true_iff in H. destruct H as [H _]. rewrite forallb_forall in H.
+    specialize (H _ (nth_error_In _ _ E)). simpl in H. rewrite forallb_forall in H.
+    specialize (H _ Hin). simpl in H. now apply negb_true_iff in H.
+  - intros o a ls E. unfold obj_at in E. destruct (get_store w f) as [st|]; try discriminate.
+    apply andb_true_iff in H. destruct H as [_ H]. rewrite forallb_forall in H.
+    specialize (H _ (nth_error_In _ _ E)). simpl in H. now apply nodup_str_b_sound.
+Qed.
+
+(** non-vacuity of listing_exact: a file with a collection, a soft link to it and a nested collection *)
+Definition w_listed : world :=
+  run world0 [OCreate FA sx false (tiny 1); OCopy FA sx FA ["y"%string] false false false true;
+              OCreate FA sxy false (tiny 2)].
+Lemma ex_listing_exact :
+  file_wf_b w_listed FA = true /\
+  list_coolers w_listed FA = (Ok, [sx; sxy; ["y"%string]; ["y"; "y"]%string]).
+Proof. vm_compute. split; reflexivity. Qed.
